@@ -37,7 +37,18 @@ func c09Tmpls() []*expTmpl {
 		mkTmpl(257, []string{"interfaceName"}, []uint32{0}),
 		// typed template for ill-typed values: ipv4, ipv6, mac, u16 sentinel
 		mkTmpl(258, []string{"sourceIPv4Address", "sourceIPv6Address", "sourceMacAddress", "sourceTransportPort"}, []uint32{0, 0, 0, 0}),
+		// a template too large for one message: 16400 one-byte fields = 16 + 4 + 4 + 65600 bytes
+		c09Huge(),
 	}
+}
+
+func c09Huge() *expTmpl {
+	names := make([]string, 16400)
+	ents := make([]uint32, 16400)
+	for i := range names {
+		names[i] = "protocolIdentifier"
+	}
+	return mkTmpl(259, names, ents)
 }
 
 func c09Ops(sizes bool) []c09op {
@@ -49,6 +60,8 @@ func c09Ops(sizes bool) []c09op {
 		{"Data(a, 2nd record one field too few)", "fieldcount2", 0, 2, -1},
 		{"Send(set reset to Undefined)", "undefined", 0, 0, 0},
 		{"Tmpl(b) with the connection write failing", "tmpl-writefail", 1, 0, 0},
+		{"Tmpl(huge: 16400 fields, does not fit a message)", "tmpl-huge", 3, 0, 0},
+		{"Data(huge,1)", "data", 3, 1, 0},
 		{"Data(typed, IPv6 address in ipv4Address element)", "illtyped", 2, 1, 0},
 		{"Data(typed, 4-byte slice in... 16-byte address element given 5 bytes)", "illtyped", 2, 1, 1},
 		{"Data(typed, MAC of 5 bytes)", "illtyped", 2, 1, 2},
@@ -83,8 +96,11 @@ func (s *c09sys) Apply(opi int) (v *xplore.Violation) {
 	mustFail := ""   // reason the model demands an error
 	isTemplate := false
 	switch op.kind {
-	case "tmpl", "tmpl-writefail":
+	case "tmpl", "tmpl-writefail", "tmpl-huge":
 		set, isTemplate = tmplSet(t), true
+		if op.kind == "tmpl-huge" {
+			mustFail = "the template set does not fit a message"
+		}
 		if op.kind == "tmpl-writefail" {
 			x.conn.FailWrites = 1
 			mustFail = "the connection write fails"
